@@ -39,6 +39,10 @@ enum Op {
     Del { pid: u64 },
     AddCp { pid: u64, last_proved: u64, start_number: u64, cps: Vec<u64> },
     Fin,
+    /// a finalization that dies in front of its second store write (the check points are
+    /// written, the final index is not): what a crash leaves behind; invisible to the model,
+    /// whose store is the list of FINAL check points
+    FinCrash,
 }
 
 /// the honest value of check point `index` (0 = the stored genesis check point)
@@ -154,7 +158,7 @@ fn gen_ops(rng: &mut Rng, interval: u64, len: usize, n_peers: u64) -> Vec<Op> {
                     ends.insert(pid, 0);
                 }
             }
-            1 | 2 | 3 => ops.push(Op::Fin),
+            1 | 2 | 3 => ops.push(if rng.chance(1, 10) { Op::FinCrash } else { Op::Fin }),
             _ => {
                 let pid = rng.range(1, n_peers);
                 let end = *ends.get(&pid).unwrap_or(&0);
@@ -231,6 +235,7 @@ fn op_text(op: &Op) -> String {
             cps.iter().map(|c| c.to_string()).collect::<Vec<_>>().join(" ")
         ),
         Op::Fin => "fin".into(),
+        Op::FinCrash => "fincrash".into(),
     }
 }
 
@@ -257,6 +262,7 @@ fn parse_ops(text: &str) -> Vec<(u32, u64, Vec<Op>)> {
                 pid: t[1].parse().unwrap(),
             }),
             Some("fin") => cur.as_mut().unwrap().2.push(Op::Fin),
+            Some("fincrash") => cur.as_mut().unwrap().2.push(Op::FinCrash),
             Some("addcp") => {
                 let bar = t.iter().position(|x| *x == "|").unwrap_or(t.len());
                 cur.as_mut().unwrap().2.push(Op::AddCp {
@@ -362,6 +368,39 @@ fn run_history(
                 lines.push(op_text(op));
                 impls.push(imp);
                 rep.count_op("addcp");
+            }
+            Op::FinCrash => {
+                let before_final = sim.finals();
+                let n = std::rc::Rc::new(std::cell::Cell::new(0u32));
+                let c = n.clone();
+                crate::verif_hooks::set_before_write(Some(Box::new(move |_site| {
+                    c.set(c.get() + 1);
+                    if c.get() == 2 {
+                        panic!("simulated crash at the second store write of the finalization");
+                    }
+                })));
+                sim.nc.take();
+                let r = catch(|| protocol.verif_finalize_check_points(sim.nc.as_ref()));
+                crate::verif_hooks::set_before_write(None);
+                let rec = sim.nc.take();
+                rep.count_class(&format!("fincrash:{}", if n.get() >= 2 { "crashed" } else { "nothing-to-write" }));
+                if n.get() < 2 {
+                    // nothing was finalized: the operation was an ordinary (empty) finalization
+                }
+                if sim.finals() != before_final && n.get() >= 2 {
+                    rep.violate("C07|final-changed-by-interrupted-finalization", "the final check points changed although the final index was not written", history_text());
+                }
+                rep.count_op("fincrash");
+                if n.get() < 2 {
+                    // it completed (no agreement / nothing new to write): an ordinary finalization
+                    let mut banned: Vec<u64> = rec.banned.iter().map(|(p, _, _)| p.value() as u64).collect();
+                    banned.sort();
+                    lines.push("fin".into());
+                    impls.push(match r {
+                        Err(p) => format!("panic {}", super::c14::panic_class(&p)),
+                        Ok(()) => format!("ok banned [{}]", banned.iter().map(|b| b.to_string()).collect::<Vec<_>>().join(", ")),
+                    });
+                }
             }
             Op::Fin => {
                 let before_final = sim.finals();
@@ -528,6 +567,32 @@ pub fn run(opts: &Options) -> Report {
             for e in rd.flatten() {
                 histories.extend(parse_ops(&std::fs::read_to_string(e.path()).unwrap_or_default()));
             }
+        }
+        // an interrupted finalization whose written-but-not-final check points a LATER quorum does
+        // not confirm: two agreeing liars reach the quorum, the finalization dies before the final
+        // index is written, the liars leave, honest peers finalize
+        for k in 0..(if opts.thorough() { 40 } else { 8 }) {
+            let interval = 8u64;
+            let count = 3 + (k % 3) as u64;
+            let lie: Vec<u64> = (0..=count).map(|i| if i == 0 { honest(0) } else { 3000 + i }).collect();
+            let truth: Vec<u64> = (0..=count + (k % 2) as u64).map(honest).collect();
+            let far = 40 * interval;
+            let mut ops = vec![
+                Op::Peer { pid: 1, proved: true },
+                Op::Peer { pid: 3, proved: true },
+                Op::AddCp { pid: 1, last_proved: far, start_number: 0, cps: lie.clone() },
+                Op::AddCp { pid: 3, last_proved: far, start_number: 0, cps: lie.clone() },
+                Op::FinCrash,
+                Op::Del { pid: 1 },
+                Op::Del { pid: 3 },
+                Op::Peer { pid: 2, proved: true },
+                Op::Peer { pid: 4, proved: true },
+                Op::AddCp { pid: 2, last_proved: far, start_number: 0, cps: truth.clone() },
+                Op::AddCp { pid: 4, last_proved: far, start_number: 0, cps: truth.clone() },
+                Op::Fin,
+            ];
+            ops.extend(gen_ops(&mut rng, interval, 6, 4));
+            histories.push((3 + (k % 2) as u32, interval, ops));
         }
         let n = if opts.thorough() { 6000 } else { 500 };
         for _ in 0..n {
